@@ -15,6 +15,11 @@
 (*                      recv buffer, rclosed (recv closed), pump goroutine  *)
 (*  queue             : qflag (isClose), qsw (Close swept the topics)       *)
 (*                                                                         *)
+(* The constants FixLowDone / FixCloseSweep select the code as found (FALSE) *)
+(* or after the repairs /repo 9cd5910 and 4a048ea (TRUE, all registered     *)
+(* configs); the FALSE variants are kept as configs whose liveness must fail *)
+(* (Queue_LivePreLow / Queue_LivePreSweep).                                  *)
+(*                                                                         *)
 (* Calls are split into start / internal steps / effect / return, because   *)
 (* the bus is lock-free: a recorded execution logs start and end of a call  *)
 (* and the state change is an internal step between them.                   *)
